@@ -172,6 +172,11 @@ func (s *script) newStruct() {
 
 func (s *script) newList() {
 	n := s.rng.PickInt(0, 1, 1, 2, 3, 7, 8, 9, 17)
+	if s.rng.Chance(1, 25) {
+		// long lists: unset they are zero runs beyond the packing run
+		// limit (255 words), set they are long literal runs
+		n = s.rng.PickInt(255, 256, 257, 300, 520, 600, 2100)
+	}
 	seg := s.seg()
 	var l capnp.List
 	var err error
@@ -350,6 +355,17 @@ func (s *script) setListElem() {
 	o := c[s.rng.Intn(len(c))]
 	i := s.rng.Intn(o.m.N)
 	v := s.rng.Uint64()
+	if o.m.ET == ref.ETByte8 && s.rng.Chance(1, 4) {
+		// fill the whole list with words that have no zero byte (a literal
+		// run for the packed encoding)
+		for k := 0; k < o.m.N; k++ {
+			w := s.rng.Uint64() | 0x0101010101010101
+			capnp.UInt64List{List: o.ls}.Set(k, w)
+			binary.LittleEndian.PutUint64(o.m.Data[8*k:], w)
+		}
+		s.logf("o%d.Fill()", o.id)
+		return
+	}
 	switch o.m.ET {
 	case ref.ETBit:
 		val := v&1 == 1
